@@ -122,6 +122,7 @@ type HStep struct {
 
 // DayFlood is a run of by-day queries over Count distinct civil days starting at From (YYYY-MM-DD), Stride days apart.
 type DayFlood struct {
+	View   string `json:"view,omitempty"` // "" by day; "year" / "ym": Count by-year / by-month queries cycling over the table's years from From's year on
 	From   string `json:"from"`
 	Count  int    `json:"count"`
 	Stride int    `json:"stride"`
